@@ -238,7 +238,7 @@ func RunConvs(t *testing.T, convs []Conv, o RunOpts) (outs []*ConvOut, tap []Ev,
 		Settle()
 		for _, out := range outs {
 			out.C = out.C.Snapshot()
-			out.H = out.H.Snapshot()
+			out.H = out.H.SnapshotInBubble()
 		}
 	})
 	// recover stream ids from the tap
